@@ -289,6 +289,9 @@ def r3_emission_order(ctx):
     for g, s, it, trees in adds:
         ok = it is not None and it[0] == 'call' and it[1] == 'std::vec::Vec::drain' and receiver_field(it[2][0]) is not None \
             and peel(it[2][1])[0] == 'agg' and 'RangeFull' in str(peel(it[2][1])[1])
+        if not ok and it is not None and it[0] == 'call' and it[1] in ('std::mem::take', 'std::mem::replace') and receiver_field(it[2][0]) is not None:
+            # the whole buffer is moved out and consumed front to back (`for x in mem::take(&mut buf)`)
+            ok = it[1] == 'std::mem::take' or any(x[0] == 'call' and x[1].endswith('Vec::new') for x in walk(it[2][1]))
         ctx.check(ok, 'flush-forward-drain', 'buffered events are handed to the runtime by a forward drain of the whole buffer (emission order)', s.where(), show(it) if it else None)
         ok2 = len(trees) >= 3 and from_item(g, trees[1]) and from_item(g, trees[2])
         ctx.check(ok2, 'flush-time-same-item', 'each event is scheduled with the time buffered with it', s.where(), show(trees[2]) if len(trees) > 2 else None)
